@@ -291,13 +291,18 @@ class UnionMatcher(AdditiveBiMatcher):
         skipped = 0
         aq = a.block_quality()
         bq = b.block_quality()
-        while a.is_active() and b.is_active() and aq + bq < minquality:
+        while a.is_active() and b.is_active() and aq + bq <= minquality:
             if aq < bq:
-                skipped += a.skip_to_quality(minquality - bq)
+                sk = a.skip_to_quality(minquality - bq)
                 aq = a.block_quality()
             else:
-                skipped += b.skip_to_quality(minquality - aq)
+                sk = b.skip_to_quality(minquality - aq)
                 bq = b.block_quality()
+            if not sk:
+                # The sub-matcher saw no block to skip (its own test can
+                # differ from the sum above by rounding): stop trying
+                break
+            skipped += sk
 
         return skipped
 
@@ -411,12 +416,17 @@ class DisjunctionMaxMatcher(UnionMatcher):
         aq = a.block_quality()
         bq = b.block_quality()
         while a.is_active() and b.is_active() and max(aq, bq) <= minquality:
+            sk = 0
             if aq <= minquality:
-                skipped += a.skip_to_quality(minquality)
+                sk += a.skip_to_quality(minquality)
                 aq = a.block_quality()
             if bq <= minquality:
-                skipped += b.skip_to_quality(minquality)
+                sk += b.skip_to_quality(minquality)
                 bq = b.block_quality()
+            if not sk:
+                # Neither sub-matcher moved: stop trying
+                break
+            skipped += sk
         return skipped
 
 
@@ -531,7 +541,7 @@ class IntersectionMatcher(AdditiveBiMatcher):
         skipped = 0
         aq = a.block_quality()
         bq = b.block_quality()
-        while a.is_active() and b.is_active() and aq + bq < minquality:
+        while a.is_active() and b.is_active() and aq + bq <= minquality:
             if aq < bq:
                 # If the block quality of A is less than B, skip A ahead until
                 # it can contribute at least the balance of the required min
@@ -784,13 +794,18 @@ class AndMaybeMatcher(AdditiveBiMatcher):
         skipped = 0
         aq = a.block_quality()
         bq = b.block_quality()
-        while a.is_active() and b.is_active() and aq + bq < minquality:
+        while a.is_active() and b.is_active() and aq + bq <= minquality:
             if aq < bq:
-                skipped += a.skip_to_quality(minquality - bq)
+                sk = a.skip_to_quality(minquality - bq)
                 aq = a.block_quality()
             else:
-                skipped += b.skip_to_quality(minquality - aq)
+                sk = b.skip_to_quality(minquality - aq)
                 bq = b.block_quality()
+            if not sk:
+                # The sub-matcher saw no block to skip (its own test can
+                # differ from the sum above by rounding): stop trying
+                break
+            skipped += sk
 
         return skipped
 
